@@ -45,6 +45,8 @@ def run_assets(rid0, kind, listing, subs, values, fmt="sm"):
     recs = []
     try:
         d = tree.path("song")
+        if kind != "native" and rid0 % 3 == 0:
+            d = "song"                       # the directory as a path relative to the filesystem's root (no leading slash)
         for (state, vdir, vfile) in values:
             sf = (SMSimfile if fmt == "sm" else SSCSimfile).blank()
             for key in KINDS:
@@ -139,7 +141,7 @@ def s2c_banner_job(job):
     return run_banner(rid, kind, [uncps(x) for x in rec["listing"]], [uncps(x) for x in rec["siblings"]], uncps(rec["packname"]))
 
 
-AVOCAB = ["banner.png", "Banner.PNG", "xbn.png", "bn.txt", "BANNER.JPG", "bnx.png", "jk_a.png", "JK_b.gif", "ajk_.png", "a-cd.png", "a-CD.PNG", "a-cdx.png",
+AVOCAB = ["song-bn.png", "song bg.png", "Song-jacket.png", "banner.png", "Banner.PNG", "xbn.png", "bn.txt", "BANNER.JPG", "bnx.png", "jk_a.png", "JK_b.gif", "ajk_.png", "a-cd.png", "a-CD.PNG", "a-cdx.png",
           "a disc.png", "my title.png", "song.ogg", "SONG.MP3", "song.ogx", "bg.jpg", "song-bg.PNG", "background.bmp", "x cdtitle y.gif", "CDTitle.png",
           "Artist - Song ver.2 bn.png", "Vol.3-cd.png", "Dr. Who jacket.png", "songbn.old.png", "songbg.orig.jpg", "a.b.c.ogg", "jk_.x.png", "cdtitle.v2.gif",
           "banner-bg.png", "Song Jacket-CD.PNG", "cdtitle bn.png", "jk_albumbg.jpg", "Banner.OGG", "Cover [HD].png", "track[1].ogg", "track1.ogg", "logoa.png", "what?.png", "star*.png",
